@@ -39,19 +39,18 @@ fn update_vertex(idx: usize, vertex_info: &mut VertexInfo, points: &[Point<Real>
 
     // A point is considered an ear when it is convex and no other points are
     // inside the triangle spanned by it and its two neighbors.
-    let mut error = false;
     vertex_info.is_ear = corner_direction(&p1, &p, &p3) == Orientation::Ccw
         && (0..points.len())
             .filter(|&i| i != vertex_info.p_prev && i != idx && i != vertex_info.p_next)
             .all(|i| {
-                if let Some(is) = is_point_in_triangle(&points[i], &p1, &p, &p3) {
-                    !is
-                } else {
-                    error = true;
-                    true
-                }
+                // `None` means the corner is numerically degenerate and `points[i]` lies on its line:
+                // count it as inside (the corner is not an ear) instead of aborting the triangulation.
+                matches!(
+                    is_point_in_triangle(&points[i], &p1, &p, &p3),
+                    Some(false)
+                )
             });
-    !error
+    true
 }
 
 /// Ear clipping triangulation algorithm.
